@@ -81,6 +81,12 @@ add('C05', 'model_checking',
     "bit-precise symbolic execution (z3 QF_FP/QF_BV term equality + abstraction to a pure QF_BV lemma), independent decoder on byte terms, concrete replay through Quantizer.quantize()",
     'DESIGN.md 3/C05')
 
+add('C09', 'model_checking',
+    "The real Quantizer.calibrate / Calibrator / min_max_calibrate / moving_average_update / init_qsvs run with the interpreter replaced by a fake (validated against the real one) whose runtime tensors are FRESH SYMBOLIC arrays per (sample, tensor). For datasets of 1..3 samples and every split point, each recorded min/max is compared as a term with the reference fold from the property text (first sample initialises, ema 0.95/0.05 in dataset order, each tensor once per sample), constants with their true per-tensor/per-channel min/max, resume(D1 then D2) with the single pass over D1+D2, and the previous result is shown untouched (identity and terms).",
+    "Assumes: what LiteRT computes is outside the claim (fresh arbitrary tensors); float ops uninterpreted (add/mul commutative); n<=3 (thorough 4); skeleton subset of 12 (thorough: all).",
+    "symbolic execution of the real calibration code over symbolic per-sample tensors (UF terms, z3), fake interpreter as nondeterministic environment stub, replay on the real interpreter",
+    'DESIGN.md 3/C09')
+
 def write():
   m = {
    'version': 1,
